@@ -98,6 +98,8 @@ class RefExchange:
         self.held = None  # request accepted as "pending", decision still open
         self.n_exec = 0
         self.acked = False
+        self.new_oid_on_replace = False
+        self.n_oid = 0
 
     # ---- views
     def status(self):
@@ -243,6 +245,10 @@ class RefExchange:
         self.qty = max(r["qty"], self.cum)  # C.3.b / C.3.c: amended up to CumQty
         self.phase = "L" if quant(self.grid, self.qty - self.cum) > 0 else S_FILLED
         self.live_id = r["new"]
+        if self.new_oid_on_replace:
+            # FIX 4.4 lets the exchange treat the replacement as an order of its own: OrderID(37) changes with it
+            self.n_oid += 1
+            self.order_id = f"{self.order_id.split('/')[0]}/{self.n_oid}"
         return self._exec("replaced", E_REPLACED, self.status(), r["new"], orig=r["old"], final_for=r["new"])
 
     def resolve(self, decision, avoid_rejects=False):
@@ -384,7 +390,7 @@ ROOT_ALPHABET = "abcdefghijklmnopqrstuvwxyzABCDEFGHIJKLMNOPQRSTUVWXYZ0123456789-
 TRICKY_ROOTS = ("a--b", "x--1y", "--5--x", "ord--12a", "7", "--", "a-", "x--", "r--01x", "1--2--", "-",
                 "A--1--B", "0", "n--", "id--9 ", "--1-", "q--1.", "o--1e3", "strat{}", "ord{0}", "x{y}", "algo{{7}}",
                 "basket}}leg", "100%", "%s--%d", "a\\1", "$1")
-QMODES = ("same", "up", "down", "below_cum", "eq_cum", "above_cum")
+QMODES = ("same", "up", "down", "below_cum", "eq_cum", "above_cum", "tick")
 PMODES = ("same", "up", "down")
 
 
@@ -415,6 +421,15 @@ def make_config(seed, tier="quick", half="c17"):
     rt = random.Random(seed ^ 0xC17E5)
     if rt.random() < 0.08:
         price = rt.choice([1.234e-05, 2.5e-07, 5e-05, 9.87654321e-06, 1e-10])  # (huge magnitudes would absorb the harness's own price + 1.0 replace step)
+    # separate stream: quantities of extreme magnitude (one more unit is a relative change below 1e-9; sub-1e-4
+    # quantities print with an exponent) and an exchange that gives the replacement order an OrderID of its own
+    rq = random.Random(seed ^ 0xC17A9)
+    x = rq.random()
+    if x < 0.04:
+        qty = rq.choice([5e9, 123456789012.0, 2.0 ** 40])
+    elif x < 0.07:
+        qty = rq.choice([1.2e-06, 2.5e-07, 7.5e-05])
+    new_oid_on_replace = rq.random() < 0.3
     direct_requests = rt.random() < 0.3
     noop_replaces = rt.random() < 0.25
     weights = {}
@@ -449,6 +464,7 @@ def make_config(seed, tier="quick", half="c17"):
         revalidate=(tier == "thorough") or r.random() < 0.125,
         direct_requests=direct_requests,
         noop_replaces=noop_replaces,
+        new_oid_on_replace=new_oid_on_replace,
     )
     return cfg
 
@@ -469,6 +485,7 @@ class _MachineBase:
             price=cfg["price"], qty=cfg["qty"],
         )
         self.ex = RefExchange(self.grid, bool(cfg.get("suspend_leaves_zero")))
+        self.ex.new_oid_on_replace = bool(cfg.get("new_oid_on_replace"))
         self.executed = []
         self.violation = None
         self.faults = collections.Counter()
@@ -557,6 +574,8 @@ class _MachineBase:
             qty = cum if cum > 0 else quant(g, o.qty + step)
         elif qmode == "above_cum":
             qty = quant(g, cum + max(step, quant(g, (o.qty - cum) / 2.0)))
+        elif qmode == "tick":
+            qty = o.qty + 1.0  # one unit more: a tiny relative change of a big quantity is still a change
         if not qty or qty <= 0:
             qty = o.qty
         if price == o.price and qty == o.qty:
@@ -1284,6 +1303,10 @@ class C20aMachine(_MachineBase):
                 if cum + leaves > qty:
                     vs.append(("quantities-consistent", f"C20/cum-plus-leaves-exceeds-qty/{what}",
                                f"{s['label']}: CumQty {cum} + LeavesQty {leaves} > OrderQty {qty}"))
+                if s["label"] in ("pending-new", "new") and qty != float(self.cfg["qty"]):
+                    # the acknowledgement restates the order as it was requested (no amendment can have happened yet)
+                    vs.append(("quantities-consistent", f"C20/acknowledged-orderqty-differs-from-requested/{what}",
+                               f"{s['label']}: OrderQty(38)={m[38]} but the order was created with qty={self.cfg['qty']!r}"))
                 if m[39] in FINISHED and leaves != 0:
                     vs.append(("quantities-consistent", f"C20/leaves-nonzero-on-finished/status={m[39]}",
                                f"{s['label']}: OrdStatus {m[39]} with LeavesQty {leaves}"))
